@@ -4,11 +4,14 @@ import (
 	"fmt"
 	"go/ast"
 	"go/types"
+	"regexp"
 	"sort"
 	"strings"
 
 	"dsverif/internal/an"
 	"dsverif/internal/core"
+
+	"golang.org/x/tools/go/packages"
 )
 
 func init() {
@@ -22,12 +25,13 @@ func init() {
 }
 
 func runC18(c *core.Ctx) {
-	c.Rule("R1", "start waits for all dependencies; a failed dependency aborts the start", 3)
+	c.Rule("R1", "start waits for all dependencies; a failed dependency aborts the start and fails the dependant", 4)
 	c.Rule("R2", "stop waits for all dependants", 2)
 	c.Rule("R3", "exactly-once initialisation over orderedDeps(name)+name", 3)
 	c.Rule("R4", "cycle check precedes dependency insertion", 2)
 	c.Rule("R5", "failure propagation", 1)
 	c.Rule("R6", "dependency queries read only the dependency graph", 4)
+	c.Rule("R7", "orderedDeps: a module is placed only after each of its dependencies has been placed (inductive invariant of the ordering loop)", 3)
 	pkg := c.Prog.Pkg("modules")
 	if pkg == nil {
 		c.Miss("R1", "pkg=modules", "not loaded")
@@ -81,6 +85,42 @@ func runC18(c *core.Ctx) {
 					}}
 				res2 := t2.Run()
 				c.Check(res2.OK(), "R1", "func=start:abort", await.Expr.Pos(), "when a dependency fails to reach Running the wrapped service is never started: "+res2.Summary(), res2.Rows)
+				// … and the dependant fails as well: with the dependency's error non-nil no return without that error is reachable
+				var errObj types.Object
+				if as, ok := stmtOf(fn, await.Expr).(*ast.AssignStmt); ok && len(as.Lhs) == 1 {
+					errObj = fn.ObjOf(as.Lhs[0])
+				}
+				var silent []an.Loc
+				for _, b := range g.Blocks {
+					r := an.ReturnOf(b)
+					if r == nil || len(r.Results) != 1 {
+						continue
+					}
+					mentions := false
+					ast.Inspect(r.Results[0], func(n ast.Node) bool {
+						if id, ok := n.(*ast.Ident); ok && errObj != nil && fn.Info().Uses[id] == errObj {
+							mentions = true
+						}
+						return true
+					})
+					if !mentions {
+						silent = append(silent, g.Locate(r))
+					}
+				}
+				if errObj == nil {
+					c.Undec("R1", "func=start:fail", await.Expr.Pos(), "the awaited dependency's error is not bound to a variable")
+				} else {
+					t3 := an.Table{G: g, From: g.LocAfter(stmtOf(fn, await.Expr)), MayOnly: true, FreeUnknown: true, Opts: an.ExecOpts{Header: header}, Atoms: []an.Atom{{Name: "ok", Values: []string{"T", "F"}}},
+						Binder: &an.Binder{Fn: fn, Eq: map[string]string{AC + "|nil": "ok"}}, Targets: silent,
+						Want: func(r an.Row, _ int) an.Tri {
+							if r["ok"] == "F" {
+								return an.F
+							}
+							return an.U
+						}}
+					res3 := t3.Run()
+					c.Check(res3.OK(), "R1", "func=start:fail", await.Expr.Pos(), fmt.Sprintf("when a dependency fails to reach Running, start returns that error on every path (no return that drops it is reachable, whatever else is tested; %d other returns): %s", len(silent), res3.Summary()), res3.Rows)
+				}
 			}
 		}
 	}
@@ -249,6 +289,8 @@ func runC18(c *core.Ctx) {
 	} else {
 		c.Miss("R5", "func=moduleService.run", "not found")
 	}
+	// ---- R7
+	c18Order(c, pkg)
 	// ---- R6 purity of dependency queries
 	mgr := an.LookupType(pkg, "Manager")
 	if mgr == nil {
@@ -299,4 +341,150 @@ func runC18(c *core.Ctx) {
 		}
 		c.Check(okR, "R6", "func="+name, fn.Pos(), fmt.Sprintf("Manager fields read %v, written %v in the query's call cone (must read only 'modules' and write nothing: a cached answer could be stale after AddDependency)", keys(reads), keys(writes)), len(seen))
 	}
+}
+
+// c18Order checks the inductive invariant of orderedDeps' placement loop: a name is appended to the
+// returned order only after every entry of its dependency list tested as already placed, and the
+// 'placed' flag of a name is raised only together with its placement. With an initially empty result
+// this makes every prefix of the order closed under dependencies, i.e. a topological order. Any other
+// ordering algorithm is reported as undecided.
+func c18Order(c *core.Ctx, pkg *packages.Package) {
+	fn := an.FindFunc(pkg, "Manager.orderedDeps")
+	if fn == nil {
+		c.Miss("R7", "func=Manager.orderedDeps", "not found")
+		return
+	}
+	c.Analysed(fn.String())
+	g := fn.Graph()
+	// the returned slice
+	var resObj types.Object
+	nret := 0
+	for _, b := range g.Blocks {
+		if r := an.ReturnOf(b); r != nil && len(r.Results) == 1 {
+			nret++
+			resObj = fn.ObjOf(r.Results[0])
+		}
+	}
+	if nret != 1 || resObj == nil {
+		c.Undec("R7", "func=orderedDeps:shape", fn.Pos(), "expected a single return of a local slice")
+		return
+	}
+	// appends to it
+	type place struct {
+		as   *ast.AssignStmt
+		name ast.Expr
+	}
+	var places []place
+	other := 0
+	fn.InspectShallow(func(n ast.Node) bool {
+		as, ok := n.(*ast.AssignStmt)
+		if !ok || len(as.Lhs) != 1 || fn.ObjOf(as.Lhs[0]) != resObj {
+			return true
+		}
+		if call, ok := an.Unparen(as.Rhs[0]).(*ast.CallExpr); ok && an.ObjIs(an.Callee(fn.Info(), call), "", "append") && len(call.Args) == 2 && !call.Ellipsis.IsValid() && fn.ObjOf(call.Args[0]) == resObj {
+			places = append(places, place{as, call.Args[1]})
+		} else if call, ok := an.Unparen(as.Rhs[0]).(*ast.CallExpr); ok && an.ObjIs(an.Callee(fn.Info(), call), "", "make") {
+			// initially empty
+		} else {
+			other++
+		}
+		return true
+	})
+	usesAsArg := 0
+	for _, call := range fn.Calls(true) {
+		for _, a := range call.Expr.Args {
+			if fn.ObjOf(a) == resObj && !an.ObjIs(call.Callee, "", "append") && !an.ObjIs(call.Callee, "", "len") {
+				usesAsArg++
+			}
+		}
+	}
+	if len(places) != 1 || other != 0 || usesAsArg != 0 {
+		c.Undec("R7", "func=orderedDeps:shape", fn.Pos(), fmt.Sprintf("ordering algorithm not recognised: %d single-element appends to the returned slice, %d other assignments, %d calls that may reorder it (the rule knows only 'place a name once all its dependencies are placed')", len(places), other, usesAsArg))
+		return
+	}
+	pl := places[0]
+	nameObj := fn.ObjOf(pl.name)
+	// the name ranges over the keys of a flag map
+	var outer *ast.RangeStmt
+	fn.InspectShallow(func(n ast.Node) bool {
+		if rs, ok := n.(*ast.RangeStmt); ok && rs.Key != nil && nameObj != nil && fn.ObjOf(rs.Key) == nameObj {
+			outer = rs
+		}
+		return true
+	})
+	var flagObj types.Object
+	if outer != nil {
+		flagObj = fn.ObjOf(outer.X)
+	}
+	if outer == nil || flagObj == nil || !an.InNode(outer, pl.as) {
+		c.Undec("R7", "func=orderedDeps:shape", pl.as.Pos(), "ordering algorithm not recognised: the placed name is not the key of a range over a local 'placed' flag map")
+		return
+	}
+	if m, ok := flagObj.Type().Underlying().(*types.Map); !ok || !types.Identical(m.Elem(), types.Typ[types.Bool]) {
+		c.Undec("R7", "func=orderedDeps:shape", pl.as.Pos(), "ordering algorithm not recognised: the ranged map is not a map to bool")
+		return
+	}
+	c.Hold("R7", "func=orderedDeps:shape", pl.as.Pos(), "one placement site: result = append(result, name), name ranging over the keys of the flag map "+flagObj.Name(), 1)
+	oh, _, _ := g.LoopBlocks(outer)
+	// the dependency loop guarding the placement
+	wantX := "recv.modules[" + fn.Canon(pl.name) + "].deps"
+	var inner *ast.RangeStmt
+	for _, rs := range rangeLoops(fn, wantX) {
+		if an.InNode(outer, rs) {
+			inner = rs
+		}
+	}
+	if inner == nil {
+		c.Viol("R7", "func=orderedDeps:guard", pl.as.Pos(), "no loop over "+wantX+" precedes the placement of the name: a module can be ordered before its dependencies")
+	} else {
+		ih, ib, _ := g.LoopBlocks(inner)
+		dom := g.Dom(ih, g.Locate(pl.as).B) && !an.InNode(inner, pl.as)
+		// from the loop body with the examined dependency not placed, the placement is unreachable in this pass
+		flagCanon := regexp.QuoteMeta(fn.Canon(outer.X))
+		t := an.Table{G: g, From: an.Loc{B: ib, I: 0}, MayOnly: true, FreeUnknown: true, Opts: an.ExecOpts{Header: oh, Unroll: 1},
+			Atoms:   []an.Atom{{Name: "placed", Values: []string{"T", "F"}}},
+			Binder:  &an.Binder{Fn: fn, Re: []an.ReRole{an.RE(`^`+flagCanon+`\[each\(`+regexp.QuoteMeta(wantX)+`\)\]$`, "PLACED"), an.RE(`^`+regexp.QuoteMeta(flagObj.Name())+`\[each\(`+regexp.QuoteMeta(wantX)+`\)\]$`, "PLACED")}, Bool: map[string]string{"PLACED": "placed"}},
+			Targets: []an.Loc{g.Locate(pl.as)}, Names: []string{"place"},
+			Want: func(r an.Row, _ int) an.Tri {
+				if r["placed"] == "F" {
+					return an.F
+				}
+				return an.U
+			}}
+		res := t.Run()
+		c.Check(dom && res.OK(), "R7", "func=orderedDeps:guard", inner.Pos(), fmt.Sprintf("the loop over the name's dependency list dominates its placement (%v) and an unplaced dependency makes the placement unreachable in that pass: %s", dom, res.Summary()), res.Rows)
+	}
+	// flag truthfulness: raised only with the placement of the same name, lowered only before the placement loop
+	okFlag, nTrue := true, 0
+	detail := []string{}
+	fn.InspectShallow(func(n ast.Node) bool {
+		as, ok := n.(*ast.AssignStmt)
+		if !ok || len(as.Lhs) != 1 {
+			return true
+		}
+		ix, ok := an.Unparen(as.Lhs[0]).(*ast.IndexExpr)
+		if !ok || fn.ObjOf(ix.X) != flagObj {
+			return true
+		}
+		v := fn.Canon(as.Rhs[0])
+		switch v {
+		case "true":
+			nTrue++
+			ex := g.Exec(g.Locate(as), []an.Loc{g.Locate(pl.as)}, func(ast.Expr, an.Store) an.Tri { return an.U }, an.ExecOpts{Header: oh})
+			if fn.ObjOf(ix.Index) != nameObj || !ex.Must[0] {
+				okFlag = false
+				detail = append(detail, fmt.Sprintf("%s[%s]=true without placing that name", flagObj.Name(), fn.Canon(ix.Index)))
+			}
+		case "false":
+			if an.InNode(outer, as) {
+				okFlag = false
+				detail = append(detail, "flag lowered inside the placement loop")
+			}
+		default:
+			okFlag = false
+			detail = append(detail, "flag set to "+v)
+		}
+		return true
+	})
+	c.Check(okFlag && nTrue == 1, "R7", "func=orderedDeps:flag", pl.as.Pos(), fmt.Sprintf("the 'placed' flag of a name is raised exactly where that name is appended to the order and never lowered afterwards %v", detail), 1)
 }
